@@ -18,7 +18,7 @@ func TestCheck(t *testing.T) {
 		"distinct = (clean-up order, full-only flag, multiset of change kinds); non-trivial = at least one background clean-up was triggered in the history. " +
 		"concurrent: rounds of 6 lookup goroutines against a synchroniser, decided per key by interval rule + porcupine. " +
 		"fields: every variant of every profile/device setting through store+load (distinct = combination of variants). " +
-		"atomic: SIGKILL of a child that stores two different caches alternately (random times and strace-injected at rename/write/fsync)")
+		"atomic: write failures (RLIMIT_FSIZE/EFBIG at 8 limits x 2 initial versions, strace-injected ENOSPC at the N-th write) in a child storing over an existing good cache; SIGKILL of a child that stores two different caches alternately (random times and strace-injected at rename/write/fsync)")
 	r.Assume("a synchronisation response carries every changed profile together with all its devices (backend protocol shape); two live devices never own the same key")
 	r.Assume("keys of devices that a deleted profile still lists are not handed out again; a profile flagged deleted is 'not found' (consumers drop Profile.Deleted)")
 	r.Assume("CreateAutoDevice is not exercised")
@@ -56,12 +56,26 @@ func TestCheck(t *testing.T) {
 		r.Require("conc_lookups_overlapping_sync", 100)
 		r.Require("porcupine_ok", 30)
 		r.Require("natural_order_lookups", 1000)
+		r.Require("failed_store_cases", 10)
+		r.Require("failed_stores_observed", 12)
+		r.Require("failed_store_successful_stores", 4)
 		r.Require("atomic_kills", 12)
 		r.Require("atomic_kills:random", 8)
 		if r.BucketGet("strace_usable") > 0 {
 			r.Require("atomic_kills:strace", 3)
 		}
 	}
+	orders := map[string]map[string]int64{}
+	for _, pt := range ownPoint {
+		orders[pt] = map[string]int64{
+			"clean-up ran before the next synchronisation":    r.BucketGet("cleanup_order:" + pt + ":ran_before_next_sync"),
+			"clean-up ran after the next synchronisation":     r.BucketGet("cleanup_order:" + pt + ":ran_after_next_sync"),
+			"after it, without blocking hooks (GOMAXPROCS 1)": r.BucketGet("natural_order:" + pt + ":ran_after_next_sync"),
+		}
+	}
+	r.Extra("interleavings_produced", orders)
+	r.Extra("key_scheme", "cleanup-deletes-new-owner:<index> = found-expected/not-found-observed with a clean-up of that index observed parked across the synchronisation that re-assigned the key; "+
+		"lookup:<index>:<class> sequential mismatch; concurrent[-final]:<index>:<class>; restart:field:<path> per setting; restart:lookup:<index>:<class>; atomic-replace:*")
 	if n := r.BucketGet("model_ambiguous"); n > 0 {
 		r.Inconclusive(fmt.Sprintf("the generator produced %d keys with two live owners", n))
 	}
